@@ -353,7 +353,9 @@ def trim_after_failure(ctx, plan, case, key_base):
     cell must not start returning a value afterwards."""
     meta, F = plan['meta'], plan['F']
     infl_f = wbgen.influencers(meta, F) | {F}
-    for d in sorted(wbgen.dependants(meta, F)):
+    reading = dict(meta, formulas={a: (m if m['form'] not in ('rowcol', 'intersect') else dict(m, deps=[]))
+                                   for a, m in meta['formulas'].items()})
+    for d in sorted(wbgen.dependants(reading, F)):
         if d == plan['probe'] or meta['formulas'][d]['form'] in ('rowcol', 'intersect', 'probe'):
             continue
         inputs = sorted(a for a in wbgen.influencers(meta, d) if a in meta['inputs'] and a not in infl_f and
